@@ -34,9 +34,14 @@ def main():
         subprocess.run(["git", "-C", "/repo", "checkout", "--", "."])
         for f, t in saved.items():
             open(os.path.join(evdir, f), "w").write(t)
+    out = os.path.join(HERE, "seeded", sid, "detection.json")
+    if len(sys.argv) > 2 and os.path.exists(out):
+        # partial run: merge into the recorded results
+        old = json.load(open(out)).get("results", {})
+        old.update(res)
+        res = old
     fired = sorted(p for p, v in res.items() if v["exit"] == 1)
     print("FIRED:", fired)
-    out = os.path.join(HERE, "seeded", sid, "detection.json")
     json.dump({"seed": sid, "fired": fired, "results": res}, open(out, "w"), indent=1)
     return 0
 
